@@ -70,7 +70,7 @@ def gen_case(rng: random.Random, tier: str) -> dict:
     if fns and rng.random() < 0.3:
         nd, _d = rng.choice(fns)
         fault = {"kind": "raise", "node": nd["name"], "inv": 0, "fid": 0, "when": "before"}
-    return {"graph": g, "inputs": inp, "entry": entry, "gsel": gsel, "rsel": rsel, "on_missing": rng.choice(["ignore", "warn", "error"]), "fault": fault, "interrupt": interrupt, "cfg": gen.gen_async_cfg(rng, allow_hold=False), "error_handling": "continue"}
+    return {"graph": g, "inputs": inp, "entry": entry, "gsel": gsel, "rsel": rsel, "on_missing": rng.choice(["ignore", "warn", "error"]), "fault": fault, "interrupt": interrupt, "cfg": gen.gen_async_cfg(rng, allow_hold=False), "error_handling": "continue", "reuse": rng.random() < 0.35}
 
 
 def _declared_outputs(g: dict) -> list[str]:
@@ -197,10 +197,20 @@ def run_case(doc: dict) -> dict:
             return res
         # configured graph
         gs = copy.deepcopy(g)
-        if doc.get("entry"):
-            gs["entrypoints"] = list(doc["entry"])
-        if doc.get("gsel"):
-            gs["select"] = list(doc["gsel"])
+        derive = None
+        if doc.get("reuse") and (doc.get("entry") or doc.get("gsel")):
+            # the unconfigured graph object is run once, then the scoped graph is derived from that same instance
+            def derive(graph, _d=doc):
+                if _d.get("entry"):
+                    graph = graph.with_entrypoint(*_d["entry"])
+                if _d.get("gsel"):
+                    graph = graph.select(*_d["gsel"])
+                return graph
+        else:
+            if doc.get("entry"):
+                gs["entrypoints"] = list(doc["entry"])
+            if doc.get("gsel"):
+                gs["select"] = list(doc["gsel"])
         act = active_set(g, doc.get("entry"))
         own = _owner(g)
 
@@ -235,9 +245,9 @@ def run_case(doc: dict) -> dict:
             for rd in range(rounds):
                 # same scope, everything selected, no policy: tells which names this scope produces
                 try:
-                    wall = run_world(gs, values, mode=mode, cfg=doc["cfg"], faults=copy.deepcopy(faults), run_kwargs={"select": "**", "error_handling": "continue"}, cache=cache)
+                    wall = run_world(gs, values, mode=mode, cfg=doc["cfg"], faults=copy.deepcopy(faults), run_kwargs={"select": "**", "error_handling": "continue"}, cache=cache, derive=derive, warm_values=wref["values"])
                     pbox: dict = {}
-                    w = run_world(gs, values, mode=mode, cfg=doc["cfg"], faults=copy.deepcopy(faults), run_kwargs=dict(kw), cache=cache, processors_factory=lambda rt, b=pbox: b.setdefault("p", [SyncProc(rt, "rec")]))
+                    w = run_world(gs, values, mode=mode, cfg=doc["cfg"], faults=copy.deepcopy(faults), run_kwargs=dict(kw), cache=cache, processors_factory=lambda rt, b=pbox: b.setdefault("p", [SyncProc(rt, "rec")]), derive=derive, warm_values=wref["values"])
                 except BuildError:
                     res["discard"] = "configured_graph_rejected"
                     return res
@@ -253,7 +263,9 @@ def run_case(doc: dict) -> dict:
                     return res
                 # ---- scope monitor
                 if act is not None:
-                    for h in w["rt"].history:
+                    hist = w["rt"].history
+                    mk = [i for i, h in enumerate(hist) if h["k"] == "derive_marker"]
+                    for h in (hist[mk[-1]:] if mk else hist):
                         if h["k"] == "enter":
                             o = own.get(h["n"], h["n"])
                             if o not in act:
